@@ -11,3 +11,6 @@ prop("C02", "property-based testing (proptest) with edge-of-overflow and positio
 prop("C03", "property-based testing (proptest) with backwards-constructed dividends and Algorithm-D stress families against a shift-subtract reference division; exhaustive at 8 bits",
      "Generated search for all 72 types over divisor shapes (every significant-digit count and normalisation shift), n = q*d + r constructions, Knuth-D stress families scaled to each digit base (a reference-side shadow run counts add-back / qhat corrections: all four digit sizes reach add-back in every run), all sign combinations, MIN/-1 and zero divisors; all division/remainder forms and rounding variants compared with an independent reference and re-derived via n = q*d + r.",
      COMMON_NOTE + " The shadow Algorithm D run is used for labelling only.")
+prop("C05", "property-based testing (proptest) over structured shift/rotate amounts against reference-integer shifts and an explicit bit permutation; exhaustive at 8 bits",
+     "Generated search for all 72 types: every shift form (checked/overflowing/wrapping/strict/unchecked/unbounded, << >> operators and const twins) against (x*2^s) mod 2^W and floor(x/2^s); rotations against an explicit permutation of the W-bit pattern for every width incl. non-powers of two, plus inverse laws. Found and repaired the rotate amount-masking defect (known_findings.json).",
+     COMMON_NOTE)
